@@ -158,6 +158,8 @@ impl<'a> Gen<'a> {
             "\"fifteen bytes..\" \"sixteen bytes...\"",
             "\"sixteen bytes...\" \"sixteen bytes...\"",
             "\"a\" \"b\" \"c\"",
+            "\"part one \"\n        \"part two on the next line, long enough to exceed\"",
+            "\"x\"\n\n  \"y\"\n  \"z\"",
             "\"\u{e9}\u{e9}\u{e9}\u{e9}\u{e9}\u{e9}\u{e9}\u{e9}\u{e9}\u{e9}\u{e9}\u{e9}\u{e9}\u{e9}\u{e9}\u{e9}\"",
         ];
         self.pick(&pool)
@@ -903,7 +905,7 @@ pub fn scenario_file(seed: u64) -> String {
         "pragma solidity >=0.6.0 ^0.8.3;", "pragma solidity ^0.8.0;", "pragma solidity 0.8.3;", "pragma solidity 0.8.5;", "pragma solidity ^0.9.0;",
         "pragma solidity 0.10.2;", "pragma solidity 1.0.0;", "pragma solidity 0.7.99;", "pragma solidity =0.8.4;",
     ][r.below(14)];
-    let tys = ["uint256", "address", "bool", "uint128", "bytes32", "uint8", "int64", "address payable", "string", "uint256[]", "mapping(address => uint256)", "IERC20", "bytes"];
+    let tys = ["uint256", "address", "bool", "uint128", "bytes32", "uint8", "int64", "address payable", "string", "uint256[]", "mapping(address => uint256)", "IERC20", "bytes", "bytes4", "bytes1"];
     let n = 3 + r.below(4);
     let mut vars: Vec<(String, &str)> = vec![];
     let mut decls = String::new();
@@ -936,11 +938,20 @@ pub fn scenario_file(seed: u64) -> String {
         vars.push((name, ty));
     }
     let rhs = |r: &mut Rng, ty: &str| -> String {
-        match r.below(6) {
+        match r.below(16) {
             0 if ty == "string" || ty == "bytes" => "\"text\"".to_string(),
             1 => "abi.decode(data, (uint256))".to_string(),
             2 => "bytes(\"x\")".to_string(),
             3 => "x + 1".to_string(),
+            // less usual right-hand sides: none of them makes the variable a non-value type
+            4 => ["hex\"a9059cbb\"", "hex'00'", "hex\"\""][r.below(3)].to_string(),
+            5 => ["0x1234", "1e18", "1_000", "2 days", "1 ether"][r.below(5)].to_string(),
+            6 => ["type(uint256).max", "type(int64).min"][r.below(2)].to_string(),
+            7 => ["keccak256(data)", "bytes32(x)", "uint8(x)", "payable(msg.sender)", "address(this)"][r.below(5)].to_string(),
+            8 => ["msg.sender", "block.timestamp", "tx.origin"][r.below(3)].to_string(),
+            9 => "x > 1 ? x : 2".to_string(),
+            10 => ["true", "false", "!(x > 1)"][r.below(3)].to_string(),
+            11 => ["0x5B38Da6a701c568545dCfcB03FcB875f56beddC4", "IERC20(msg.sender)"][r.below(2)].to_string(),
             _ => "x".to_string(),
         }
     };
@@ -1044,7 +1055,8 @@ pub fn scenario_file(seed: u64) -> String {
         ));
     }
     if r.chance(1, 2) {
-        let msg = ["\"short\"", "\"exactly thirty-two bytes long...\"", "\"this message is certainly longer than thirty-two bytes\"", "\"ab\" \"cd\"", "\"sixteen bytes...\" \"sixteen bytes...\""][r.below(5)];
+        let msg = ["\"short\"", "\"exactly thirty-two bytes long...\"", "\"this message is certainly longer than thirty-two bytes\"", "\"ab\" \"cd\"", "\"sixteen bytes...\" \"sixteen bytes...\"",
+            "\"first part, \"\n      \"second part on its own line, long enough\"", "unicode\"\u{e9}\u{e9}\u{e9}\u{e9}\u{e9}\u{e9}\u{e9}\u{e9}\u{e9}\u{e9}\u{e9}\u{e9}\u{e9}\u{e9}\u{e9}\u{e9}\u{e9}\""][r.below(7)];
         body.push_str(&format!("  function chk(uint256 a) public pure {{ require(a > 1, {}); require(a > 2 && a < 9, {}); }}\n", msg, msg));
     }
     let kind = ["contract", "abstract contract", "contract", "library"][r.below(4)];
